@@ -38,6 +38,9 @@ type C02Scenario struct {
 	// StaleOption (map environments): members of the sample map change type after
 	// expr.Env(sample) was called and before Compile.
 	StaleOption bool `json:"stale_option,omitempty"`
+	// Operator (probes): an arithmetic operator overloaded with OpS (two strings)
+	// or OpI (two ints); the probe has literal operands around it.
+	Operator []string `json:"operator,omitempty"`
 	Source string `json:"source_text,omitempty"`
 }
 
@@ -110,11 +113,22 @@ func (c02Engine) Gen(seed uint64, idx int, tier string) interface{} {
 			sc.Raw = r.Pick([]string{"A in [1, 2, 3]", "B in 1..3", "A not in [0, 1]", "A == 1", "B in [1, 2]", "K in [1, 2]", "A in 0..9"})
 			sc.Source = sc.Raw
 		}
+		if !sc.StaleOption && r.Chance(1, 10) {
+			if r.Chance(1, 2) {
+				sc.Operator = []string{"+", "OpS"}
+				sc.Raw = r.Pick([]string{`"usr" + "bin"`, `S + "a"`, `"a" + "b" + S`, `("a" + "b") == "a/b"`, `("a" + "b") in ["ab", "a/b"]`, `["x" + "y", T + "y"]`, `len("a" + "b")`, `CS("a" + "b")`, `"a" + "b" + "c"`})
+			} else {
+				op := r.Pick([]string{"+", "-", "*", "%", "**"})
+				sc.Operator = []string{op, "OpI"}
+				sc.Raw = strings.ReplaceAll(r.Pick([]string{"70 @ 70", "A @ 1", "1 @ 2 @ A", "[1 @ 2, A @ 1]", "(7 @ 2) == 702", "CI(3 @ 4)", "(2 @ 3) in 1..9", "Xs[0 @ 0:]", "5 @ 0", "len(1..(1 @ 2))"}), "@", op)
+			}
+			sc.Source = sc.Raw
+		}
 		sc.Marks = append(sc.Marks, "Ff", "CL", "CP", "CN")
 		return sc
 	}
 	cfg := GenCfg{Budget: r.Range(4, 36), Calls: true, Dyn: r.Chance(1, 2), Failing: r.Chance(2, 3), Strings: true,
-		Closures: r.Chance(3, 4), Maps: r.Chance(1, 2), Objects: r.Chance(1, 2), ShortPred: r.Chance(1, 2), NilSafe: r.Chance(1, 3), SliceCall: true, ConstFns: true}
+		Closures: r.Chance(3, 4), Maps: r.Chance(1, 2), Objects: r.Chance(1, 2), ShortPred: r.Chance(1, 2), NilSafe: r.Chance(1, 3), SliceCall: true, ConstFns: true, Pow: true}
 	cfg.AnyUsable = sc.Rep != RepMap || (sc.Env.Any != nil && sc.Env.Any.Kind == "int")
 	cfg.MapRep = sc.Rep == RepMap
 	g := NewGen(r.Fork(), cfg)
@@ -231,6 +245,7 @@ func genTypedProbe(r *RNG, d *EnvData) string {
 		return fmt.Sprintf("Lvl %s %s", in, r.Pick([]string{"[1, 2, 3]", "1..3", "[0, 1]", "0..0"}))
 	case 16: // negated comparisons (operand possibly nil, NaN), powers of literals, duplicate map keys
 		return r.Pick([]string{
+			"On?.V in [1]", "On?.V not in [0]", "On?.Name in [\"a\"]", "O?.Next?.V in [0]", "O?.Next?.Name in [\"\"]", "A in [1]", "S in [\"a\"]", "Any in [1]", "F64 in [1]", "nil in [1]", "I8 in [1]",
 			"not (On?.V == A)", "not (On?.V != 0)", "not (O?.V == A)", "not (A == O.V)", "not (S in [\"a\"])", "not (A not in [1, 2])",
 			"not (0.0 / 0.0 < 3)", "not (F64 / 0.0 * 0.0 >= 1)", "not (F64 < 1)", "not (A <= B)",
 			"2 ** 63", "10 ** 19 > 0", "3 ** 41", "2 ** 10", "[1, 2][10 ** 19 > 0 ? 0 : 1]", "(-2) ** 63",
@@ -338,6 +353,10 @@ func (c02Engine) Run(sci interface{}, ctx *RunCtx) *Finding {
 		}
 		for _, m := range marks {
 			opts = append(opts, expr.ConstExpr(m))
+		}
+		if len(sc.Operator) == 2 {
+			opts = append(opts, expr.Operator(sc.Operator[0], sc.Operator[1]))
+			ctx.Count("probes_with_overloaded_operator", 1)
 		}
 		p, co := sutCompile(pr.Src, opts...)
 		ctx.Logf("compile %s: %s | compile-phase journal %v fired %v", label, firstLine(co.ErrText()), journalStrings(w.Journal), w.Fired)
